@@ -578,6 +578,23 @@ func driverCorrupt(c *Ctx) {
 				add("body", m)
 			}
 		}
+		// non-finite patterns written over float values, 8-bit characters over ASCII ones
+		for k := 14; k+6 <= len(base); k++ {
+			if base[k] == 0x91 && base[k+1] >= 4 && k+2+4 <= len(base) { // F4, one length byte
+				for _, pat := range [][]byte{{0x7F, 0x80, 0, 0}, {0x7F, 0x80, 0, 1}, {0x7F, 0xC0, 0, 0}, {0xFF, 0x80, 0, 0}, {0xFF, 0xFF, 0xFF, 0xFF}, {0x7F, 0x7F, 0xFF, 0xFF}} {
+					m := clone(base)
+					copy(m[k+2:], pat)
+					add("float-pattern", m)
+				}
+			}
+			if base[k] == 0x81 && base[k+1] >= 8 && k+2+8 <= len(base) { // F8
+				for _, pat := range [][]byte{{0x7F, 0xF0, 0, 0, 0, 0, 0, 0}, {0x7F, 0xF0, 0, 0, 0, 0, 0, 1}, {0x7F, 0xF8, 0, 0, 0, 0, 0, 0}, {0xFF, 0xF0, 0, 0, 0, 0, 0, 0}, {0x7F, 0xEF, 0xFF, 0xFF, 0xFF, 0xFF, 0xFF, 0xFF}} {
+					m := clone(base)
+					copy(m[k+2:], pat)
+					add("float-pattern", m)
+				}
+			}
+		}
 		// unstructured bytes
 		for k := 0; k < 6; k++ {
 			n := 10 + g.pick(30)
